@@ -514,6 +514,7 @@ type Contract struct {
 	Progress  map[int][]string
 	NoCall    bool // closure arguments are stored, not invoked, by this function
 	PureParams []string // func-typed parameters assumed to be pure functions of their arguments
+	LoopExit  map[int][]*Clause // loop ordinal → what holds whenever control leaves the loop for the code after it
 	GuardedParams map[string]string // map-typed parameter → "Type.mu": its contents may only be accessed with that mutex held
 }
 
@@ -719,6 +720,13 @@ func (cs *ContractSet) LoadContractFile(path, pkgPath string) error {
 			c.Loop = n
 			if parts[1] == "decreases" {
 				cur.Decreases[n] = append(cur.Decreases[n], c)
+				break
+			}
+			if parts[1] == "exit" {
+				if cur.LoopExit == nil {
+					cur.LoopExit = map[int][]*Clause{}
+				}
+				cur.LoopExit[n] = append(cur.LoopExit[n], c)
 				break
 			}
 			if word == "closure" {
